@@ -89,11 +89,15 @@ def build(cfg, obj, g2p, callback, rng_init):
         common.update(optimal_value=cfg["optimal_value"], termination_error_value=cfg["err"])
     init = None
     if kind in ("GeneticAlgorithm", "SelfCGA", "PDPGA", "SHAGA"):
-        if cfg["init"]:
+        if cfg.get("_init_object") is not None:
+            init = cfg["_init_object"]           # the caller re-uses the very array object of an earlier run
+        elif cfg["init"]:
             init = np.array([[rng_init.randint(0, 1) for _ in range(cfg["str_len"])] for _ in range(cfg["pop"])], dtype=np.byte)
         opt = getattr(O, kind)(obj, str_len=cfg["str_len"], init_population=init, **common)
     elif kind in ("DifferentialEvolution", "jDE", "SHADE"):
-        if cfg["init"]:
+        if cfg.get("_init_object") is not None:
+            init = cfg["_init_object"]
+        elif cfg["init"]:
             init = np.array([[rng_init.randint(-8, 8) / 4 for _ in range(cfg["dim"])] for _ in range(cfg["pop"])], dtype=np.float64)
         kw = dict(left_border=-2.0, right_border=2.0, num_variables=cfg["dim"], init_population=init)
         if kind != "SHADE":
@@ -102,7 +106,9 @@ def build(cfg, obj, g2p, callback, rng_init):
     else:
         from thefittest.base import Tree
         uniset = cfg["_uniset"]
-        if cfg["init"]:
+        if cfg.get("_init_object") is not None:
+            init = cfg["_init_object"]
+        elif cfg["init"]:
             from thefittest.utils.random import numba_seed
             numba_seed(int(cfg["seed"]) ^ 0x2545F491)     # the caller-supplied initial trees are a function of the configuration
             init = np.array([Tree.random_tree(uniset, 3) for _ in range(cfg["pop"])], dtype=object)
